@@ -152,11 +152,11 @@ func (e *Engine) strEq(x, y V) V {
 	if x.K == KStr && y.K == KStr {
 		return vBool(x.P.(string) == y.P.(string))
 	}
-	if strLen(x) != strLen(y) {
-		return vBool(false)
-	}
 	if isOpaqueStr(x) || isOpaqueStr(y) {
 		e.unsupported("comparison of an opaque formatted string")
+	}
+	if strLen(x) != strLen(y) {
+		return vBool(false)
 	}
 	xb, yb := strBytes(x), strBytes(y)
 	c := e.ts.True
